@@ -1,5 +1,5 @@
 (* Dispatch.v — one Gallina entry point for both evaluators: a protocol line in, a result line out. *)
-From MRS Require Import Model.Base Model.OpsBasic.
+From MRS Require Import Model.Base Model.OpsBasic Model.OpsHash.
 From Coq Require Import String Ascii.
 Open Scope string_scope.
 
@@ -7,7 +7,7 @@ Definition first_some (fs : list (string -> list string -> option string)) (op :
   : option string :=
   fold_left (fun acc f => match acc with Some r => Some r | None => f op args end) fs None.
 
-Definition all_ops : list (string -> list string -> option string) := [ ops_basic ].
+Definition all_ops : list (string -> list string -> option string) := [ ops_basic; ops_hash ].
 
 Definition run_line (line : string) : string :=
   match words line with
